@@ -144,15 +144,16 @@ def private_gen(gen_dir, mods, jobs):
     _tmp.append(d)
     for mod in mods:
         shutil.copy(os.path.join(gen_dir, mod + '.v'), d)
-    errs = []
+    errs, failed = [], set()
 
     def one(mod):
         ok, out, err, _ = run_coqc(['-Q', os.path.join(COQ, 'theories'), 'QSC', '-Q', d, 'QSCGen', os.path.join(d, mod + '.v')], d)
         if not ok:
-            errs.append('%s: %s' % (mod, (err or out)[-400:]))
+            errs.append('%s.v does not compile: %s' % (mod, ' '.join((err or out).split())[-400:]))
+            failed.add(mod)
     with ThreadPoolExecutor(max_workers=jobs) as ex:
         list(ex.map(one, mods))
-    return d, errs
+    return d, errs, failed
 
 
 # ------------------------------------------------------------------ cases
@@ -246,7 +247,7 @@ def write_shard(path, cases, Ddefs, pfiles):
     L = ['(* GENERATED by tools/harness/tie_floateval.py -- removed at exit *)',
          'From Coq Require Import String List Floats.PrimFloat.',
          'From QSC Require Import Expr FloatEval.',
-         'From QSCGen Require Import %s.' % ' '.join(mods),
+         ('From QSCGen Require Import %s.' % ' '.join(mods)) if mods else '',
          'Import ListNotations.', 'Open Scope string_scope.', 'Open Scope float_scope.', '',
          'Definition tol : float := %s.' % fl(TOL), '']
     for oi in sorted(set(c.oi for c in cases)):
@@ -317,8 +318,12 @@ def main():
     ap.add_argument('--jobs', type=int, default=min(8, os.cpu_count() or 2))
     ap.add_argument('--private', action='store_true', help='always compile a private copy of the G_*.v files')
     ap.add_argument('--keep', action='store_true', help='keep the case files (debugging)')
+    ap.add_argument('--max-objects', type=int, default=60, help='cap on --n (the driver passes up to 300 in the thorough tier)')
+    ap.add_argument('--tier', default='quick')          # accepted for the driver's calling convention; not used
+    ap.add_argument('--budget', type=float, default=0)  # idem
     a = ap.parse_args()
     t0 = time.time()
+    a.n = max(1, min(a.n, a.max_objects))
     rng = np.random.default_rng(a.seed)
     gen_dir = os.path.abspath(a.gen_dir)
     res = dict(programs=0, cases=0, bindings_compared=0, bindings_skipped_oracle=0, worst_rel_err=0.0, mismatches=[], unbound=[],
@@ -348,9 +353,10 @@ def main():
     mods = sorted(set(pfiles[c.pname] for c in cases))
     qgen = gen_dir
     if a.private or not fresh_vo(gen_dir, mods):
-        qgen, errs = private_gen(gen_dir, mods, a.jobs)
+        qgen, errs, failed = private_gen(gen_dir, mods, a.jobs)
         res['coq_errors'] += errs
         res['gen_compiled_privately'] = True
+        cases = [c for c in cases if pfiles[c.pname] not in failed]          # (the other modules are still evaluated)
     mkflags = lambda g: ['-Q', 'theories', 'QSC', '-Q', g, 'QSCGen', '-Q', 'gprops', 'QSCGProps', '-Q', 'props', 'QSCProps']
     qflags = mkflags(qgen)
 
@@ -376,10 +382,15 @@ def main():
         results = list(ex.map(compile_shard, paths))
     if qgen == gen_dir and not all(r[0] for r in results):
         # compiled modules found in place but unusable (rebuilt concurrently, other Expr.vo, ...): once more against a private copy
-        qgen, errs = private_gen(gen_dir, mods, a.jobs)
+        qgen, errs, failed = private_gen(gen_dir, mods, a.jobs)
         res['coq_errors'] += errs
         res['gen_compiled_privately'] = True
         qflags = mkflags(qgen)
+        if failed:
+            cases = [c for c in cases if pfiles[c.pname] not in failed]
+            shards = [[c for c in sh if pfiles[c.pname] not in failed] for sh in shards]
+            for p_, sh in zip(paths, shards):
+                write_shard(p_, sh, Ddefs, pfiles)
         with ThreadPoolExecutor(max_workers=nsh) as ex:
             results = list(ex.map(compile_shard, paths))
 
@@ -429,7 +440,14 @@ def main():
                 elif not (resid <= 1e-8 * max(scale, 1e-300)):
                     res['mismatches'].append(dict(program=c.pname, name=eq, rel_err=float(resid / max(scale, 1e-300)), cfg=jsonable(c.cfg),
                                                   what='oracle solution does not satisfy the residual equation'))
+    # a driver that only reads `mismatches` must still see unbound names and Coq failures
+    for u in res['unbound']:
+        res['mismatches'].append(dict(program=u['program'], name=','.join(u['names']), rel_err=None, cfg=u['cfg'],
+                                      what='read by the program but neither bound earlier nor given as an input (%s)' % u['source']))
+    for e in res['coq_errors']:
+        res['mismatches'].append(dict(program='<coqc>', name='', rel_err=None, cfg=None, what=e))
     res['programs'] = len(progs_seen)
+    res['configs'] = len(objs); res['programs_validated'] = res['cases']; res['max_rel_err'] = worst      # (names used by the other harnesses)
     res['program_names'] = sorted(progs_seen)
     res['worst_rel_err'] = worst
     res['mismatches'] = res['mismatches'][:40]
